@@ -357,3 +357,38 @@ Proof. exact tcr_intense_witness. Qed.
 Theorem c16_rendered_termcolor_nonexhaustive_panics :
   g_tcr_render (fst (g_tcr_set_fg g_tcr_spec_new (Some TcNonexhaustive))) = None.
 Proof. exact g_tcr_render_nonexhaustive_panics. Qed.
+(* ---- the RENDERING code of ansi_term itself (tools/gen_fn_ansiterm.py -> Generated/AnsiTermFn.v) -------------
+   The source of the library (the version Cargo.lock pins, from the cargo registry: style.rs, ansi.rs, display.rs)
+   is translated on every run: the builder methods, `Style::paint`, the Display impls, `write_prefix` /
+   `write_suffix`, the colour codes.  [atm_style] / [atm_colour] are the library's struct / enum as they are
+   declared, [g_atm_render v] is `v.paint("x").to_string().into_bytes()` (what harness/h-adapters runs),
+   [atm_abstract v] names the value the way Spec/Targets.v names values, [g_atc_to_ansi_term] is the adapter
+   translated over the concrete types (its builder calls are the translated methods). *)
+From AV Require Import Model.AnsiTerm Generated.AnsiTermFn Proofs.AnsiTermFnGen.
+
+(* the translated rendering never panics and writes what the hand model says *)
+Theorem c16_rendered_ansiterm_is_model : forall v, g_atm_render v = Some (atm_render v).
+Proof. exact translated_ansiterm_render_is_model. Qed.
+
+(* for EVERY value of the type ansi_term::Style: a terminal in its default state (Spec/Vt + Spec/Sgr) shows one
+   character, 'x', in exactly the rendition the meaning tables of Spec/Targets.v assign to the value *)
+Theorem c16_rendered_ansiterm_meaning : forall v, atm_wf v ->
+  exists bs, g_atm_render v = Some bs /\ ad_interp_x bs = ad_meaning AdAnsiTerm (atm_abstract v) /\
+             ad_meaning AdAnsiTerm (atm_abstract v) = Some (atm_meaning v).
+Proof. exact translated_ansiterm_render_meaning. Qed.
+
+(* the adapter over the library's own types: the value it builds *)
+Theorem c16_rendered_ansiterm_adapter_is_model : forall s, ad_src_ok s ->
+  g_atc_to_ansi_term s = Some (atm_of_src s).
+Proof. exact translated_ansiterm_adapter_is_model. Qed.
+
+(* that value, read through the meaning tables, means what the abstract model's value means (c16_style_meaning) *)
+Theorem c16_rendered_ansiterm_value_meaning : forall s, ad_src_ok s ->
+  ad_meaning AdAnsiTerm (atm_abstract (atm_of_src s)) = ad_meaning AdAnsiTerm (ad_to_ansi_term s).
+Proof. exact ansiterm_concrete_means_abstract. Qed.
+
+(* render (convert s) interprets to project(s): bold on iff BOLD or a bright foreground, hues kept, background
+   brightness dropped, indexed / RGB exact -- no identification of palette entries needed for ansi_term *)
+Theorem c16_rendered_ansiterm_converted : forall s, ad_src_ok s -> atm_src_ok s ->
+  exists bs, (g_atc_render_converted s = Some bs) /\ (ad_interp_x bs = Some (ad_project AdAnsiTerm s)).
+Proof. exact rendered_ansiterm_converted. Qed.
